@@ -7,6 +7,8 @@
 import Zed.Proofs.VngNulls
 import Zed.Proofs.VngPrimitive
 import Zed.Proofs.VngColumns
+import Zed.Proofs.VecLoad
+import Zed.Proofs.VecProject
 namespace Zed.Props.C03
 open Zed.Vng Zed.Generated.C03
 
@@ -207,5 +209,139 @@ example : (let t1 := Ty.record (.cons [97] (.prim 9) (.cons [98] (.array (.prim 
              [(t1, .cont (.cons (.prim [1]) (.cons .null .nil))), (t2, .union 1 (.cont (.cons (.prim [120]) (.cons .null .nil)))),
               (t1, .null), (t2, .union 0 (.prim [2])), (t1, .cont (.cons .null (.cons (.cont (.cons (.prim []) .nil)) .nil)))]
            vs.all (fun p => conforms p.1 p.2) && (readRows (encTop vs) == some vs)) = true := by decide
+
+/-! ## Vector path: the cache loader and the materializer -/
+
+/-- **convolve_correct.**  `convolve(parent, child)` keeps the parent's nulls and re-indexes
+    the child's bits past them: it is the child's bitmap placed into the parent's non-null
+    slots. -/
+theorem convolve_correct (P C : List Bool) (h : P.count false = C.length) :
+    convolve P C = (place P C).map (·.getD true) :=
+  convolve_eq_place P C h
+
+/-- … and consequently: a column with its own nulls, expanded into its parent's slots, is its
+    non-null values expanded into the slots of the convolved bitmap (whose null count is the
+    sum of both). -/
+theorem convolve_flattens (P : List Bool) (vs : List Val) (hlen : P.count false = vs.length) :
+    expandVal P vs = expandVal (convolve P (vs.map Val.isNull)) (nonNull vs) ∧
+    (convolve P (vs.map Val.isNull)).length = P.length ∧
+    (convolve P (vs.map Val.isNull)).count false = (nonNull vs).length ∧
+    (convolve P (vs.map Val.isNull)).count true = P.count true + (vs.map Val.isNull).count true :=
+  expandVal_convolve P vs hlen
+
+/-- **vec_leaf_correct.**  A primitive column (not enum, not net) loaded under ANY flattened
+    bitmap, whichever of plain / dictionary / const it was stored as: slot `s` serialises to
+    null where the bitmap says so and to the `rank s`-th written value elsewhere. -/
+theorem vec_leaf_correct (t : Ty) (id : Nat) (nn : List Val) (b : Bitmap) (F : List Bool)
+    (hR : Rep b F) (hcnt : F.count false = nn.length) (hprim : ∀ v ∈ nn, ∃ x, v = .prim x)
+    (hE : isEnumTy t = false) (hN : isNetTy t = false) (hnull : isNullTy t = true → nn = []) :
+    ∃ v, loadLeaf t (primEncode id true (nn.map Val.primBytes))
+        (F.count true + (primEncode id true (nn.map Val.primBytes)).len) b = some v ∧
+      vecType v = t ∧ SlotSpec v F nn :=
+  loadLeaf_spec t id nn b F hR hcnt hprim hE hN hnull
+
+/-- **vng_roundtrip_vectors_partial.**  Guard `flatTy t`: the type is built from primitive
+    types other than net, records (nested arbitrarily, with nulls at every level) and named
+    types.  Then for every list of well-formed values the vector path yields, slot by slot,
+    the values that were written, with the right type and length — in particular every
+    child column's nulls are convolved with those of all enclosing records.
+
+    Full statement (all types) — FALSE of the current code, see `not_vng_roundtrip_vectors`;
+    arrays, sets, maps, unions and error types outside the known-broken classes are covered by
+    the model/code correspondence (`vecm`) only. -/
+theorem vng_roundtrip_vectors_partial (t : Ty) (hflat : flatTy t = true) (vs : List Val)
+    (hconf : ∀ v ∈ vs, conforms t v = true) :
+    ∃ v, load (enc t vs) none 0 none = some v ∧ vecType v = t ∧ v.len = vs.length ∧
+      (∀ i, i < vs.length → serialize v i = vs[i]?) ∧
+      materialize v = some (vs.map fun x => (t, x)) :=
+  load_top_flat t hflat vs hconf
+
+/-- the same below a chain of enclosing records whose flattened nulls are `Fp`. -/
+theorem vng_vectors_under_parent (t : Ty) (hflat : flatTy t = true) : LoadSpec t :=
+  loadSpec_flat t hflat
+
+-- non-vacuity: a nested record type with a named field is in the fragment; a concrete run
+example : flatTy (.record (.cons [97] (.prim 9) (.cons [114] (.record (.cons [120] (.named [110] (.prim 25)) .nil)) .nil))) = true := by decide
+example : readVec [] (encTop
+    [(.record (.cons [97] (.prim 9) .nil), .cont (.cons (.prim [2]) .nil)), (.record (.cons [97] (.prim 9) .nil), .null),
+     (.record (.cons [97] (.prim 9) .nil), .cont (.cons .null .nil))]) =
+    some [(.record (.cons [97] (.prim 9) .nil), .cont (.cons (.prim [2]) .nil)), (.record (.cons [97] (.prim 9) .nil), .null),
+     (.record (.cons [97] (.prim 9) .nil), .cont (.cons .null .nil))] := by decide
+
+/-- **not_vng_roundtrip_vectors**: the vector path fails (error or panic) on an enum column,
+    on a net column in plain encoding, on a union column with a null slot and on an
+    error-typed field below a record column that contains a null.  (The harness replays the
+    same witnesses on the real code.) -/
+theorem not_vng_roundtrip_vectors :
+    -- enum a|b: values 0, 1
+    readVec [] (encTop [(.enum [[97], [98]], .prim []), (.enum [[97], [98]], .prim [1])]) = none ∧
+    -- a net leaf stored plain
+    loadLeaf (.prim 27) (.plain [[10, 0, 0, 0, 24]] 1) 1 none = none ∧
+    -- {u:null} {u:7((int64,string))}
+    readVec [] (encTop
+      [(.record (.cons [117] (.union (.cons (.prim 9) (.cons (.prim 25) .nil))) .nil), .cont (.cons .null .nil)),
+       (.record (.cons [117] (.union (.cons (.prim 9) (.cons (.prim 25) .nil))) .nil), .cont (.cons (.union 0 (.prim [14])) .nil))]) = none ∧
+    -- null {e:error(1)} {e:error(2)}
+    readVec [] (encTop
+      [(.record (.cons [101] (.error (.prim 9)) .nil), .null),
+       (.record (.cons [101] (.error (.prim 9)) .nil), .cont (.cons (.prim [2]) .nil)),
+       (.record (.cons [101] (.error (.prim 9)) .nil), .cont (.cons (.prim [4]) .nil))]) = none := by
+  decide
+
+/-- **load_total — FALSE**: the writer stores every non-container type as a primitive column,
+    enum included, and the loader has no enum case (`loadVals` falls through to an error,
+    `loadDict` and `empty` panic); the `net` case of `loadVals` indexes a nil slice. -/
+theorem not_load_total :
+    "TypeEnum" ∉ loadValsCases.map (·.1) ∧ loadValsFallthrough = "error" ∧
+    "TypeEnum" ∉ loadDictCases ∧ loadDictDefault = "panic" ∧
+    "TypeEnum" ∉ emptyCases ∧ emptyDefault = "panic" ∧
+    ("TypeOfNet", "nil-slice") ∈ loadValsCases := by decide
+
+/-- … and what does hold: every primitive type `LookupPrimitiveByID` implements has a case in
+    `loadVals` and `empty`, every one that can be dictionary encoded (not in the 8-bit
+    exclusion list, not the null type) has a case in `loadDict`, and every case but `net`
+    allocates its slice before indexing it. -/
+theorem load_total_partial :
+    (∀ p ∈ primitiveTypes, p.2 ∈ loadValsCases.map (·.1) ∧ p.2 ∈ emptyCases) ∧
+    (∀ p ∈ primitiveTypes, p.1 ∉ dictExcludedIDs → p.1 ≠ 29 → p.2 ∈ loadDictCases) ∧
+    (∀ c ∈ loadValsCases, c.1 ≠ "TypeOfNet" → c.2 = "alloc") := by decide
+
+/-- the recursive walks of the loader handle every node kind `newShadow` builds. -/
+theorem loader_walks_total :
+    loadVectorCases = fetchNullsCases ∧ loadVectorCases = flattenNullsCases ∧
+    loadVectorCases = projectCases ∧ loadVectorCases.length = newShadowCases.length - 1 := by decide
+
+/-! ## Projection -/
+
+/-- **projection_sound_partial.**  Guard `flatTy t` (primitives other than net, records, named
+    types).  For every set of field paths (`mkProj` is `vcache.NewProjection`, with the code's
+    path-tree insertion) and every list of well-formed values, the projection of the loaded
+    vectors has the projected type and yields, slot by slot, exactly the data of the written
+    value at the requested paths (`projVal`: selected fields in path order, nested paths,
+    `error("missing")` for absent paths, null for a null record).
+
+    Full statement (all types) — FALSE of the current code: `not_projection_sound`. -/
+theorem projection_sound_partial (paths : List (List Bytes)) (t : Ty) (hflat : flatTy t = true)
+    (vs : List Val) (hconf : ∀ v ∈ vs, conforms t v = true) :
+    ∃ v, load (enc t vs) none 0 none = some v ∧
+      vecType (projVec (mkProj paths) v) = projTy (mkProj paths) t ∧
+      ∀ i, i < vs.length →
+        serialize (projVec (mkProj paths) v) i = (vs[i]?).map (projVal (mkProj paths) t) :=
+  projection_sound_flat paths t hflat vs hconf
+
+/-- **not_projection_sound**: a record below an array / set / map / union is loaded only at
+    the projected fields but rebuilt with all of them: projecting `x` out of `[{x:1,y:2}]`
+    dereferences the nil vector of `y`. -/
+theorem not_projection_sound :
+    projCrashes (mkProj [[[120]]])
+      (enc (.array (.record (.cons [120] (.prim 9) (.cons [121] (.prim 9) .nil))))
+        [.cont (.cons (.cont (.cons (.prim [2]) (.cons (.prim [4]) .nil))) .nil)]) = true := by decide
+
+/-- the specification of a projection on a concrete value: present, nested, absent paths. -/
+example : restrict [[[97]], [[114], [120]], [[122]]]
+    (.record (.cons [97] (.prim 9) (.cons [98] (.prim 9) (.cons [114] (.record (.cons [120] (.prim 25) (.cons [121] (.prim 25) .nil))) .nil))),
+     .cont (.cons (.prim [2]) (.cons (.prim [4]) (.cons (.cont (.cons (.prim [113]) (.cons (.prim [119]) .nil))) .nil)))) =
+    (.record (.cons [97] (.prim 9) (.cons [114] (.record (.cons [120] (.prim 25) .nil)) (.cons [122] (.error (.prim 25)) .nil))),
+     .cont (.cons (.prim [2]) (.cons (.cont (.cons (.prim [113]) .nil)) (.cons (.prim [109, 105, 115, 115, 105, 110, 103]) .nil)))) := by decide
 
 end Zed.Props.C03
